@@ -42,6 +42,9 @@ type c13Case struct {
 	Status   int         `json:"status,omitempty"`
 	Seed     int64       `json:"seed,omitempty"`
 	Redirect string      `json:"redirect,omitempty"` // url: "<status>;<kind>" - the backend answers the handshake with this redirect
+	Then     string      `json:"then,omitempty"`     // url: after the open, the backend drops the websocket ("drop-abrupt" | "drop-graceful") and the client keeps using the session
+	N        int         `json:"n,omitempty"`        // burst: concurrent goroutines
+	M        int         `json:"m,omitempty"`        // burst: opens per goroutine
 	Info     bool        `json:"info,omitempty"`     // routing of this path is library-defined: observed, not judged
 }
 
@@ -53,8 +56,10 @@ type c13Result struct {
 	Want       []string `json:"want,omitempty"`
 	ParseErr   bool     `json:"parse_err"`
 	Connected  bool     `json:"connected"`
-	Redirects  int      `json:"redirects"` // handshakes the backend answered with a redirect during this case
-	Reached    bool     `json:"reached"`   // nonshim: the wrapped handler saw the request
+	Redirects  int      `json:"redirects"`       // handshakes the backend answered with a redirect during this case
+	Opens      int      `json:"opens"`           // burst: opens performed
+	Later      []string `json:"later,omitempty"` // statuses of the calls made after the backend dropped the session
+	Reached    bool     `json:"reached"`         // nonshim: the wrapped handler saw the request
 	Violations []string `json:"violations,omitempty"`
 	Note       string   `json:"note,omitempty"`
 }
@@ -141,7 +146,9 @@ func c13Main(specBytes []byte) {
 	}
 	for _, c := range spec.Cases {
 		Start(c.ID)
-		if c.Kind == "nonshim" {
+		if c.Kind == "burst" {
+			Emit(c13Burst(c, shimProxy(wrapped, b.addr, "shim", c.Rewrite, false), dials, b))
+		} else if c.Kind == "nonshim" {
 			Emit(c13NonShim(c, proxy(c.ShimPath, c.Rewrite), wrapped, dials, b))
 		} else {
 			Emit(c13URL(c, proxy("shim", c.Rewrite), dials, b))
@@ -271,6 +278,35 @@ func c13URL(c c13Case, h http.Handler, dials *c13Dials, b *shimBackend) c13Resul
 			res.Note = "open answered 200 but the backend has no connection for it"
 			res.Violations = append(res.Violations, fmt.Sprintf("C13:connected-elsewhere:%s|open with body %s answered 200 but the configured backend saw no websocket for it (dials: %v)", form, show, res.Dials))
 		}
+		if r.ID != "" && c.Then != "" && res.Connected {
+			// the backend side goes away; the client, unaware, keeps using its session
+			bc := b.conn(c.ID)
+			if c.Then == "drop-abrupt" {
+				bc.closeAbruptly()
+				time.Sleep(5 * time.Millisecond)
+			} else {
+				bc.closeNow()
+				bc.settled(0)
+			}
+			dials.take()
+			for _, step := range []string{"data", "poll", "data", "close", "data"} {
+				body := shimIDBody(r.ID)
+				if step == "data" {
+					body, _ = json.Marshal([]map[string]string{{"id": r.ID, "msg": "are you still there"}})
+				}
+				la := shimStart(h, nil, "", shimReq(step, nil, body)).wait(30 * time.Second)
+				res.Later = append(res.Later, fmt.Sprintf("%s=%d", step, la.Status))
+				if la.Panic != "" {
+					res.Violations = append(res.Violations, fmt.Sprintf("C13:panic:%s|%s after the backend dropped the session opened with %s panicked: %s", shimSlug(la.Panic), step, show, la.Panic))
+				}
+				for _, d := range dials.take() {
+					res.Dials = append(res.Dials, d)
+					if d != "tcp "+b.addr {
+						res.Violations = append(res.Violations, fmt.Sprintf("C13:dial-foreign:after-backend-drop|session opened with %s; the backend dropped its websocket (%s); the client's next %s call made the agent dial %q (configured backend %q)", show, c.Then, step, d, b.addr))
+					}
+				}
+			}
+		}
 		if r.ID != "" {
 			shimStart(h, nil, "", shimReq("close", nil, shimIDBody(r.ID))).wait(10 * time.Second)
 		}
@@ -375,4 +411,87 @@ func c13Hdr(h http.Header) string {
 		p = append(p, fmt.Sprintf("%s=%q", k, h[k]))
 	}
 	return shimTrunc(strings.Join(p, " "), 400)
+}
+
+// c13Burst: N goroutines open sessions at the same time on one handler, every
+// body naming its own foreign host, port, path and query. All dials must go
+// to the backend, and every backend connection must have been asked for the
+// path and query of its own open.
+func c13Burst(c c13Case, h http.Handler, dials *c13Dials, b *shimBackend) c13Result {
+	res := c13Result{ID: c.ID}
+	dials.take()
+	type one struct {
+		token, body string
+		a           shimAnswer
+	}
+	all := make([][]one, c.N)
+	var wg sync.WaitGroup
+	for g := 0; g < c.N; g++ {
+		g := g
+		wg.Add(1)
+		go func() {
+			defer wg.Done()
+			for i := 0; i < c.M; i++ {
+				o := one{token: fmt.Sprintf("%s-%d-%d", c.ID, g, i)}
+				scheme := []string{"ws", "wss", "http", "https"}[(g+i)%4]
+				host := fmt.Sprintf("evil-%d-%d.example:%d", g, i, 1000+g*100+i)
+				if (g+i)%5 == 0 {
+					host = fmt.Sprintf("[2001:db8::%x:%x]:%d", g+1, i+1, 2000+i)
+				}
+				o.body = fmt.Sprintf("%s://%s/burst/g%d/i%d?g=%d&i=%d", scheme, host, g, i, g, i)
+				req, err := shimParse(shimRaw("POST", "/shim/open", c.Host, [][2]string{{"X-Verif-Conn", o.token}, {"X-Websocket-Shim-Version", "1"}}, []byte(o.body)))
+				if err != nil {
+					continue
+				}
+				o.a = shimStart(h, nil, "", req).wait(30 * time.Second)
+				all[g] = append(all[g], o)
+			}
+		}()
+	}
+	wg.Wait()
+	for _, d := range dials.take() {
+		if d != "tcp "+b.addr {
+			res.Dials = append(res.Dials, d)
+			if len(res.Violations) < 10 {
+				res.Violations = append(res.Violations, fmt.Sprintf("C13:dial-foreign:concurrent-opens|%d goroutines x %d concurrent opens, each naming its own foreign host: the agent dialled %q (configured backend %q)", c.N, c.M, d, b.addr))
+			}
+		} else if len(res.Dials) == 0 {
+			res.Dials = append(res.Dials, "tcp <configured backend>")
+		}
+	}
+	for _, os := range all {
+		for _, o := range os {
+			res.Opens++
+			if o.a.Panic != "" {
+				res.Violations = append(res.Violations, fmt.Sprintf("C13:panic:%s|concurrent open with body %q panicked: %s", shimSlug(o.a.Panic), o.body, o.a.Panic))
+				continue
+			}
+			if !o.a.Answered || o.a.Status != 200 {
+				continue
+			}
+			res.Connected = true
+			var r shimOpenResp
+			json.Unmarshal(o.a.Body, &r)
+			want, _ := c13Want(o.body)
+			if bc := b.conn(o.token); bc != nil {
+				ok := false
+				for _, w := range want {
+					if w == bc.uri {
+						ok = true
+					}
+				}
+				if !ok && len(res.Violations) < 10 {
+					res.Violations = append(res.Violations, fmt.Sprintf("C13:uri-altered:concurrent-opens|%d goroutines x %d concurrent opens: the open with body %q reached the backend as %q instead of %q (another request's URL?)", c.N, c.M, o.body, bc.uri, want))
+				}
+			} else if len(res.Violations) < 10 {
+				res.Violations = append(res.Violations, fmt.Sprintf("C13:connected-elsewhere:concurrent-opens|open with body %q answered 200 but the configured backend saw no websocket for it", o.body))
+			}
+			if r.ID != "" {
+				shimStart(h, nil, "", shimReq("close", nil, shimIDBody(r.ID))).wait(10 * time.Second)
+			}
+			b.forget(o.token)
+		}
+	}
+	res.Status = 200
+	return res
 }
